@@ -10,9 +10,10 @@ Part 1 (this section): the value-based checkers.  `Cppcheck.SevDecide` copies, p
 picked, gated and graded.  The theorems say what an *error*-severity finding guarantees about the value behind it — exactly
 what the code guarantees, no more: for most checkers that is `errorSeverity()` = "no condition, not a default argument" on
 a value that is not Impossible (it may be Known, Possible or — with `--inconclusive` — Inconclusive); only nullPointer,
-uninitvar and invalidFunctionArg additionally demand a Known value; shiftNegative guarantees nothing in the code as found (`shiftNegative` is
-always an error: counterexample below, reproduced on the real binary, finding F04a; `Opts.gradedShiftNegative` selects the
-repaired variant, for which the same guarantee is proved).
+uninitvar and invalidFunctionArg additionally demand a Known value.  Two places where the code as found guaranteed less were
+repaired in /repo (4fa5b48: shiftNegative was always an error, F04a; 43eccce: an access with several indexes was graded by one
+value of the index vector, F04c); the repaired code is the model, the bodies as found (`shiftNegativeAsFound`,
+`arrayIndexNAsFound`) are kept only for the regression theorems `*_asFound_counterexample`.
 `*_trigger_is_ub` connect the trigger conditions to the MiniC semantics (C01): an operand value that triggers the checker
 makes the evaluation of the flagged operator undefined, so a sound Known fact means no UB-free execution evaluates it.
 -/
@@ -29,27 +30,19 @@ def sampleValue (k : Kind) (i : Int) (c : Bool) : Value :=
 def allOn : Opts := { warning := true, portability := true, inconclusive := true, cpp14 := false }
 def allOff : Opts := { warning := false, portability := false, inconclusive := false, cpp14 := false }
 
-/-- **grading step, every checker but shiftNegative**: severity `error` ⇒ the picked value has no condition and is not a
-    default argument; for nullPointer / uninitvar / invalidFunctionArg it is moreover Known (for uninitvar *only* Known is
-    guaranteed: `uninitvarError` never looks at `condition`/`defaultArg` when it grades). -/
-theorem error_implies_definite (c : Checker) (v : Value) (ic : Bool) (o : Opts)
-    (hc : c ≠ .shiftNegative ∨ o.gradedShiftNegative = true) (h : decideSev c v ic o = some .error) :
+/-- **grading step, every checker**: severity `error` ⇒ the picked value has no condition and is not a default argument; for
+    nullPointer / uninitvar / invalidFunctionArg it is moreover Known (for uninitvar *only* Known is guaranteed: `uninitvarError`
+    never looks at `condition`/`defaultArg` when it grades). -/
+theorem error_implies_definite (c : Checker) (v : Value) (ic : Bool) (o : Opts) (h : decideSev c v ic o = some .error) :
     (c ≠ .uninitvar → v.cond = false ∧ v.defaultArg = false) ∧
     ((c = .nullPointer ∨ c = .uninitvar ∨ c = .invalidFunctionArg) → v.kind = .known) := by
-  cases c <;> simp [decideSev, sevOf, Value.errorSeverity, Value.isKnown] at h hc ⊢
+  cases c <;> simp [decideSev, sevOf, Value.errorSeverity, Value.isKnown] at h ⊢
   all_goals first
     | (repeat' split at h) <;> simp_all
 
 example : decideSev .zerodiv (sampleValue .possible 0 false) false allOff = some .error := by decide
 example : decideSev .nullPointer (sampleValue .known 0 false) false allOff = some .error := by decide
 example : decideSev .nullPointer (sampleValue .possible 0 false) false allOff = some .warning := by decide
-
-/-- the statement without the exclusion of shiftNegative is false of the code: `negativeBitwiseShiftError` reports
-    `Severity::error` whatever value `getValueLE(-1)` picked, also one that hangs on a condition (F04a) -/
-theorem error_implies_definite_counterexample :
-    ¬ ∀ (c : Checker) (v : Value) (ic : Bool) (o : Opts), decideSev c v ic o = some .error → v.cond = false := by
-  intro h
-  exact absurd (h .shiftNegative (sampleValue .possible (-1) true) false allOn (by decide)) (by decide)
 
 /-! #### list level: pick + gate + grade -/
 
@@ -93,72 +86,47 @@ theorem nullPointer_error_known (o : Opts) (d : Deref) (vals : List Value) (r : 
               simp at hc hd
               exact ⟨⟨hc, hd, by rw [he]; decide⟩, he, hi, h0⟩
 
-/-- an error-severity arrayIndexOutOfBounds / negativeIndex report on `a[i1]…[ik]` (either variant): some index position has a value
-    that is not Impossible and out of bounds; in the graded variant that value is definite -/
-theorem arrayIndexN_error_partial (o : Opts) (dims : List (Int × List Value)) (r : Report)
+/-- an error-severity arrayIndexOutOfBounds / negativeIndex report on `a[i1]…[ik]`: some index position has a definite value that
+    is out of bounds -/
+theorem arrayIndexN_error_definite (o : Opts) (dims : List (Int × List Value)) (r : Report)
     (hr : r ∈ arrayIndexN o dims) (he : r.sev = .error) :
-    ∃ d ∈ dims, ∃ v ∈ d.2, v.kind ≠ .impossible ∧ v.isInt = true ∧ (d.1 ≤ v.intvalue ∨ v.intvalue ≤ -1) ∧
-      (o.gradedIndexVector = true → v.cond = false ∧ v.defaultArg = false) := by
+    ∃ d ∈ dims, ∃ v ∈ d.2, Definite v ∧ v.isInt = true ∧ (d.1 ≤ v.intvalue ∨ v.intvalue ≤ -1) := by
   have es : ∀ v : Value, v.errorSeverity = true → v.cond = false ∧ v.defaultArg = false := by
     intro v h; cases hc : v.cond <;> cases hd : v.defaultArg <;> simp_all [Value.errorSeverity]
-  unfold arrayIndexN at hr
+  unfold arrayIndexN arrayIndexNV at hr
   rcases List.mem_append.mp hr with hr | hr
   · split at hr
     · rename_i hflag
       obtain ⟨d, hd, v, hv, hmem⟩ := overrun_flag hflag
       obtain ⟨hm, hi, himp, hs⟩ := isOutOfBounds_spec hv
-      refine ⟨d, hd, v, hm, by intro hk; simp [Value.isImpossible, hk] at himp, hi, Or.inl hs, fun hg => ?_⟩
-      exact es v ((indexVectorError_error hr he).1 hg v hmem)
+      obtain ⟨hc, hda⟩ := es v ((indexVectorErrorV_error hr he).1 rfl v hmem)
+      exact ⟨d, hd, v, hm, ⟨hc, hda, by intro hk; simp [Value.isImpossible, hk] at himp⟩, hi, Or.inl hs⟩
     · simp at hr
   · split at hr
     · rename_i hflag
       obtain ⟨d, hd, v, hv, hmem⟩ := negative_flag hflag
       obtain ⟨hm, himp, hi, hs, _⟩ := getValueLE_spec hv
-      refine ⟨d, hd, v, hm, by intro hk; simp [Value.isImpossible, hk] at himp, hi, Or.inr hs, fun hg => ?_⟩
-      exact es v ((indexVectorError_error hr he).1 hg v hmem)
+      obtain ⟨hc, hda⟩ := es v ((indexVectorErrorV_error hr he).1 rfl v hmem)
+      exact ⟨d, hd, v, hm, ⟨hc, hda, by intro hk; simp [Value.isImpossible, hk] at himp⟩, hi, Or.inr hs⟩
     · simp at hr
 
-/-- one-dimensional access, either variant: the out-of-bounds value itself is definite -/
+/-- one-dimensional access -/
 theorem arrayIndex_error_definite (o : Opts) (size : Int) (vals : List Value) (r : Report)
     (hr : r ∈ arrayIndex o size vals) (he : r.sev = .error) :
     ∃ v ∈ vals, Definite v ∧ v.isInt = true ∧ (size ≤ v.intvalue ∨ v.intvalue ≤ -1) := by
-  have es : ∀ v : Value, v.errorSeverity = true → v.cond = false ∧ v.defaultArg = false := by
-    intro v h; cases hc : v.cond <;> cases hd : v.defaultArg <;> simp_all [Value.errorSeverity]
-  -- with one index position the vector is [v]: "some member" and "every member" coincide
-  have one : ∀ (a b : String) (v : Value), r ∈ indexVectorError o a b [v] → v.errorSeverity = true := by
-    intro a b v h
-    obtain ⟨h1, h2⟩ := indexVectorError_error h he
-    by_cases hg : o.gradedIndexVector = true
-    · exact h1 hg v List.mem_cons_self
-    · obtain ⟨w, hw, hes⟩ := h2 (by simpa using hg)
-      simp at hw; subst hw; exact hes
-  unfold arrayIndex arrayIndexN at hr
-  rcases List.mem_append.mp hr with hr | hr
-  · split at hr
-    · rename_i hflag
-      simp only [overrunIndexValues] at hflag hr
-      cases hb : isOutOfBounds size vals with
-      | none => simp [hb] at hflag
-      | some v =>
-        simp only [hb] at hr
-        obtain ⟨hm, hi, himp, hs⟩ := isOutOfBounds_spec hb
-        obtain ⟨hc, hd⟩ := es v (one _ _ v hr)
-        exact ⟨v, hm, ⟨hc, hd, by intro hk; simp [Value.isImpossible, hk] at himp⟩, hi, Or.inl hs⟩
-    · simp at hr
-  · split at hr
-    · rename_i hflag
-      simp only [List.any_cons, List.any_nil, Bool.or_false] at hflag
-      obtain ⟨v, hv⟩ := Option.isSome_iff_exists.mp hflag
-      simp only [List.map_cons, List.map_nil, hv, Option.getD_some] at hr
-      obtain ⟨hm, himp, hi, hs, _⟩ := getValueLE_spec hv
-      obtain ⟨hc, hd⟩ := es v (one _ _ v hr)
-      exact ⟨v, hm, ⟨hc, hd, by intro hk; simp [Value.isImpossible, hk] at himp⟩, hi, Or.inr hs⟩
-    · simp at hr
+  obtain ⟨d, hd, v, hv, h⟩ := arrayIndexN_error_definite o [(size, vals)] r hr he
+  simp at hd; subst hd
+  exact ⟨v, hv, h⟩
 
-/-- as found, the statement does not extend to two index positions: `a[j][i]` on `int a[2][3]` where `j` is 2 only under a
-    condition and `i` is a Known, in-bounds 1 that carries an error path (an assignment): graded `error`, id without `Cond` (F04c) -/
-theorem arrayIndexN_error_counterexample :
-    ¬ ∀ (o : Opts) (dims : List (Int × List Value)) (r : Report), r ∈ arrayIndexN o dims → r.sev = .error →
+example : arrayIndexN allOn
+    [(2, [{ sampleValue .possible 2 true with hasErrorPath := true }]), (3, [{ sampleValue .known 1 false with hasErrorPath := true }])] =
+    [⟨"arrayIndexOutOfBoundsCond", .warning, .normal⟩] := by decide
+
+/-- regression (F04c, repaired by 43eccce): with arrayIndexError as it was found the statement failed for two index positions —
+    `a[j][i]` on `int a[2][3]` where `j` is 2 only under a condition and `i` is a Known, in-bounds 1 that carries an error path
+    (an assignment) was graded `error`, id without `Cond` -/
+theorem arrayIndexN_asFound_counterexample :
+    ¬ ∀ (o : Opts) (dims : List (Int × List Value)) (r : Report), r ∈ arrayIndexNAsFound o dims → r.sev = .error →
         ∃ d ∈ dims, ∃ v ∈ d.2, (d.1 ≤ v.intvalue ∨ v.intvalue ≤ -1) ∧ v.cond = false := by
   intro h
   obtain ⟨d, hd, v, hv, hoob, hc⟩ := h allOn
@@ -166,10 +134,6 @@ theorem arrayIndexN_error_counterexample :
     ⟨"arrayIndexOutOfBounds", .error, .normal⟩ (by decide) rfl
   simp at hd
   rcases hd with hd | hd <;> subst hd <;> simp at hv <;> subst hv <;> revert hoob hc <;> decide
-
-example : arrayIndexN { allOn with gradedIndexVector := true }
-    [(2, [{ sampleValue .possible 2 true with hasErrorPath := true }]), (3, [{ sampleValue .known 1 false with hasErrorPath := true }])] =
-    [⟨"arrayIndexOutOfBoundsCond", .warning, .normal⟩] := by decide
 
 theorem shiftTooManyBits_error_definite (o : Opts) (lhsbits : Int) (sg : Bool) (vals : List Value) (r : Report)
     (hr : r ∈ shiftTooManyBits o lhsbits sg vals) (he : r.sev = .error) :
@@ -262,36 +226,11 @@ theorem invalidFunctionArg_error_known (o : Opts) (valid : Int → Bool) (vals :
     simp [sevOf, Value.errorSeverity, Value.isKnown] at he
     exact ⟨v, hm, ⟨he.1, he.2.1, by rw [he.2.2]; decide⟩, he.2.2, hp.1.2, hp.2⟩
 
-/-- shiftNegative is graded `error` on a list that holds nothing but a value hanging on a condition -/
-theorem shiftNegative_error_conditional_counterexample :
-    ¬ ∀ (o : Opts) (ls rs : Bool) (lv rv : List Value) (r : Report),
-        r ∈ shiftNegative o ls rs lv rv → r.sev = .error → ∃ v ∈ rv, Definite v := by
-  intro h
-  obtain ⟨v, hm, hd⟩ := h { allOn with portability := false } true true [] [sampleValue .possible (-1) true]
-    ⟨"shiftNegative", .error, .normal⟩ (by decide) rfl
-  simp at hm; subst hm
-  exact absurd hd.1 (by decide)
-
-/-- what does hold for shiftNegative in either variant: some value of the right operand that is not Impossible is ≤ -1 -/
-theorem shiftNegative_error_partial (o : Opts) (ls rs : Bool) (lv rv : List Value) (r : Report)
-    (hr : r ∈ shiftNegative o ls rs lv rv) (he : r.sev = .error) :
-    ∃ v ∈ rv, v.isImpossible = false ∧ v.isInt = true ∧ v.intvalue ≤ -1 ∧ (v.cond = true → o.warning = true) := by
-  unfold shiftNegative at hr
-  split at hr
-  · simp at hr; subst hr; simp at he
-  · split at hr
-    · split at hr
-      · rename_i v hv
-        obtain ⟨hm, himp, hi, hle, hc⟩ := getValueLE_spec hv
-        exact ⟨v, hm, himp, hi, hle, hc⟩
-      · simp at hr
-    · simp at hr
-
-/-- the repaired variant (proposed/C04-shiftnegative-severity.diff) grades like the other checkers: error ⇒ definite -/
-theorem shiftNegative_error_definite_graded (o : Opts) (hg : o.gradedShiftNegative = true) (ls rs : Bool) (lv rv : List Value)
+/-- shiftNegative: error ⇒ a definite value ≤ -1 of the right operand -/
+theorem shiftNegative_error_definite (o : Opts) (ls rs : Bool) (lv rv : List Value)
     (r : Report) (hr : r ∈ shiftNegative o ls rs lv rv) (he : r.sev = .error) :
     ∃ v ∈ rv, Definite v ∧ v.isInt = true ∧ v.intvalue ≤ -1 := by
-  unfold shiftNegative at hr
+  unfold shiftNegative shiftNegativeV at hr
   split at hr
   · simp at hr; subst hr; simp at he
   · split at hr
@@ -305,8 +244,19 @@ theorem shiftNegative_error_definite_graded (o : Opts) (hg : o.gradedShiftNegati
       · simp at hr
     · simp at hr
 
-example : (shiftNegative { allOn with gradedShiftNegative := true } true true [] [sampleValue .possible (-1) true]) =
-    [⟨"shiftNegative", .warning, .normal⟩] := by decide
+example : (shiftNegative allOn true true [] [sampleValue .possible (-1) true]) = [⟨"shiftNegative", .warning, .normal⟩] ∧
+    (shiftNegative allOn true true [] [sampleValue .known (-1) false]) = [⟨"shiftNegative", .error, .normal⟩] := by decide
+
+/-- regression (F04a, repaired by 4fa5b48): negativeBitwiseShiftError as it was found graded `error` on a list that holds nothing
+    but a value hanging on a condition -/
+theorem shiftNegative_asFound_counterexample :
+    ¬ ∀ (o : Opts) (ls rs : Bool) (lv rv : List Value) (r : Report),
+        r ∈ shiftNegativeAsFound o ls rs lv rv → r.sev = .error → ∃ v ∈ rv, Definite v := by
+  intro h
+  obtain ⟨v, hm, hd⟩ := h { allOn with portability := false } true true [] [sampleValue .possible (-1) true]
+    ⟨"shiftNegative", .error, .normal⟩ (by decide) rfl
+  simp at hm; subst hm
+  exact absurd hd.1 (by decide)
 
 /-! #### the trigger conditions are undefined behaviour in the MiniC semantics (C01's specification side) -/
 
